@@ -341,6 +341,8 @@ def option_value_table(prog, chk):
     argv_cursor_bounded(prog, chk, "C20.k")
     select_covers_registered(prog, chk, "C20.l")
     select_arguments_rearmed(prog, chk, "C20.m")
+    overload_forwarding(prog, chk, "C20.n")
+    argv_reads_within_count(prog, chk, "C20.o")
 
 
 def quoted_word_typestate(prog, chk, rid):
@@ -728,3 +730,99 @@ def select_arguments_rearmed(prog, chk, rid):
                 chk.ok(rid, f, "select() arguments %s are set up again before every call" % objs, f.where(c), "cycle search avoiding the set-up statements", evals=len(objs) + 1)
     if not n:
         raise AnalysisBroken("no select() call found in Process.cpp")
+
+
+def overload_forwarding(prog, chk, rid):
+    """The convenience overloads of Process::start/open (command line, List of arguments) convert their arguments and delegate to the
+    argc/argv overload: what the caller asked for - environment, stream set - only reaches the child if every delegation hands its own
+    parameter on.  An omitted argument silently becomes the default (empty environment = inherit the parent's)."""
+    chk.rule(rid, "WRAP: where a Process::start/open overload delegates to a sibling overload, each parameter of the sibling that the "
+                  "delegating overload also has (same name and type) receives that parameter, not a default argument or another value", floor=3)
+    fs = [f for f in prog.functions.values() if f.clsq == "Process" and f.short in ("start", "open") and f.blocks and f.file.endswith("Process.cpp")]
+    if len(fs) < 5:
+        raise AnalysisBroken("Process::start/open overloads: %d found, 5 expected" % len(fs))
+    by_sig = {f.sig: f for f in fs}
+    n = 0
+    for f in fs:
+        mine = {p_["n"]: p_ for p_ in f.params}
+        for c in q.calls(f):
+            g = by_sig.get(f.nodes[c].get("csig"))
+            if g is None or g is f or g.short != f.short:
+                continue
+            args = q.call_args(f, c)
+            for k, gp in enumerate(g.params):
+                if gp["n"] not in mine or mine[gp["n"]]["t"] != gp["t"] or gp["n"] in ("executable", "program", "commandLine", "command"):
+                    continue
+                n += 1
+                a = args[k] if k < len(args) else None
+                an = f.nodes[f.strip(a)] if a is not None else None
+                while an is not None and an["k"] in ("ImplicitCastExpr", "ParenExpr", "MaterializeTemporaryExpr", "CXXBindTemporaryExpr") and an["c"]:
+                    an = f.nodes[f.strip(an["c"][0])] if f.strip(an["c"][0]) != an["i"] else f.nodes[an["c"][0]]
+                ok = an is not None and an["k"] == "DeclRefExpr" and an["ref"].get("id") == mine[gp["n"]]["id"] and \
+                    not [s_ for s_ in q.stores(f) if q.no_casts(f.r(s_.lhs)) == gp["n"]]
+                if ok:
+                    chk.ok(rid, f, "`%s` handed on to %s" % (gp["n"], g.sig[:60]), f.where(c), "argument %d is the parameter itself" % (k + 1), evals=1)
+                else:
+                    what = "left to its default argument" if an is None or an["k"] == "CXXDefaultArgExpr" else "given `%s`" % q.no_casts(f.r(a))[:40]
+                    chk.bad(rid, f, "parameter-not-forwarded:" + gp["n"], f.where(c),
+                            "this overload takes `%s` but the delegation to %s is %s: the caller's %s never reaches the child process "
+                            "(e.g. open(exe, List, streams, {X=1}) starts the child with the parent's environment instead)" % (
+                                gp["n"], g.sig[:70], what, gp["n"]), evals=1)
+    if not n:
+        raise AnalysisBroken("no delegation between Process::start/open overloads found")
+
+
+def argv_reads_within_count(prog, chk, rid):
+    """The argc/argv overloads get an array of which exactly `argc` elements are the caller's (a terminating null pointer behind them is
+    optional and therefore may be LOOKED FOR only inside the count).  Evaluated for argc = 0..3 and both outcomes of every test the
+    count does not decide: each `argv[E]` that is read has 0 <= E < argc, whatever the function did to its own copy of argc meanwhile."""
+    import itertools
+    chk.rule(rid, "FIN/VSA: Process::start/open(argc, argv) evaluated for argc = 0..3 over the outcomes of the undetermined tests: every "
+                  "subscript of the caller's `argv` that is evaluated lies in [0, argc) of the count passed in", floor=2)
+    fs = [f for f in prog.functions.values() if f.clsq == "Process" and f.blocks and f.file.endswith("Process.cpp") and
+          any(p_["n"] == "argc" for p_ in f.params) and any(p_["n"] == "argv" for p_ in f.params)]
+    if len(fs) < 2:
+        raise AnalysisBroken("Process::start/open(argc, argv): %d bodies found, 2 expected" % len(fs))
+    for f in fs:
+        where = "%s:%s" % (f.file, f.line)
+        subs = [i for i, n in enumerate(f.nodes) if n["k"] == "ArraySubscriptExpr" and f.node_pos(i) is not None and q.no_casts(f.r(n["c"][0])) == "argv"]
+        if not subs:
+            chk.ok(rid, f, "argv is not subscripted here", where, "", nontrivial=False)
+            continue
+        bad = None
+        n_ev = 0
+        for argc in range(0, 4):
+            unk = []
+            for combo in itertools.product((0, 1), repeat=3):
+                hits = []
+
+                def trace(e, val, _argc=argc, _hits=hits):
+                    if e in subs:
+                        v = fin.eval_expr(f, f.nodes[e]["c"][1], val)
+                        _hits.append((e, v))
+                seen_keys = []
+
+                def assume(k_, _combo=combo, _seen=seen_keys):
+                    if k_ not in _seen:
+                        _seen.append(k_)
+                    ix = _seen.index(k_)
+                    return _combo[ix] if ix < len(_combo) else 0
+                val = {"argc": argc, "this->pid": 0}
+                seen, end, fv = fin.walk_vals(f, f.entry, val, limit=600, assume=assume, trace=trace)
+                n_ev += 1
+                for e, v in hits:
+                    if v is None or not (0 <= v < argc):
+                        bad = (argc, e, v)
+                        break
+                if bad:
+                    break
+            if bad:
+                break
+        if bad:
+            argc, e, v = bad
+            chk.bad(rid, f, "argv-read-outside-count", f.where(e),
+                    "called with argc = %d, `%s` is evaluated with the subscript %s: an element the caller never declared (argv may be a "
+                    "null pointer or an empty array when argc is 0; a terminator behind the count is optional)" % (
+                        argc, q.no_casts(f.r(e))[:40], "undetermined" if v is None else v), evals=n_ev)
+        else:
+            chk.ok(rid, f, "%d subscripts of argv stay inside the count for argc = 0..3" % len(subs), where, "%d evaluations" % n_ev, evals=n_ev)
